@@ -416,7 +416,8 @@ class EscapeAnalysis:
                     out.add(("IndexError", f"{U(n)[:60]} (possibly empty)"))
                 return out
             if name == "index" and isinstance(n.func, ast.Attribute) and len(n.args) == 1:
-                out.add(("ValueError", U(n)[:60]))
+                if not self.safe_site(n, func, "subscript"):
+                    out.add(("ValueError", U(n)[:60]))
                 return out
         return out
 
